@@ -78,7 +78,10 @@ type Slide struct {
 	SlideNum  string   `json:"slide_num,omitempty"` // type="sldNum", text carried by an <a:fld type="slidenum">
 	// GroupFooters puts the footer, date and slide-number shapes into one group shape (19.3.1.22 grpSp): grouping
 	// changes neither their text nor their placeholder roles.
-	GroupFooters bool   `json:"group_footers,omitempty"`
+	GroupFooters bool `json:"group_footers,omitempty"`
+	// FootersFirst writes the footer, date and slide-number shapes in front of the body and the text boxes (the
+	// order of the shape tree is the stacking order, nothing ties placeholders to its end)
+	FootersFirst bool   `json:"footers_first,omitempty"`
 	Notes        *Notes `json:"notes,omitempty"`
 
 	// Part is the part name without leading slash; "" = ppt/slides/slide<k>.xml
@@ -396,51 +399,62 @@ func slideXML(s Slide) []byte {
 		paraXML(&sb, Para{Text: s.Subtitle})
 		sb.WriteString(spClose)
 	}
-	if len(s.Body) > 0 {
-		id := ids.next()
-		ph := `<p:ph idx="1"/>`
-		if s.BodyTyped {
-			ph = `<p:ph type="body" idx="1"/>`
+	writeBody := func() {
+		if len(s.Body) > 0 {
+			id := ids.next()
+			ph := `<p:ph idx="1"/>`
+			if s.BodyTyped {
+				ph = `<p:ph type="body" idx="1"/>`
+			}
+			spOpen(&sb, id, fmt.Sprintf("Content Placeholder %d", id-1), ph, false)
+			for _, p := range s.Body {
+				paraXML(&sb, p)
+			}
+			sb.WriteString(spClose)
 		}
-		spOpen(&sb, id, fmt.Sprintf("Content Placeholder %d", id-1), ph, false)
-		for _, p := range s.Body {
-			paraXML(&sb, p)
+		for _, tb := range s.TextBoxes {
+			id := ids.next()
+			spOpen(&sb, id, fmt.Sprintf("TextBox %d", id-1), "", true)
+			for _, p := range tb {
+				paraXML(&sb, p)
+			}
+			sb.WriteString(spClose)
 		}
-		sb.WriteString(spClose)
 	}
-	for _, tb := range s.TextBoxes {
-		id := ids.next()
-		spOpen(&sb, id, fmt.Sprintf("TextBox %d", id-1), "", true)
-		for _, p := range tb {
-			paraXML(&sb, p)
+	writeFooters := func() {
+		grouped := s.GroupFooters && (s.Footer != "" || s.Date != "" || s.SlideNum != "")
+		if grouped {
+			id := ids.next()
+			fmt.Fprintf(&sb, `<p:grpSp><p:nvGrpSpPr><p:cNvPr id="%d" name="Group %d"/><p:cNvGrpSpPr/><p:nvPr/></p:nvGrpSpPr><p:grpSpPr><a:xfrm><a:off x="0" y="6356350"/><a:ext cx="9144000" cy="365125"/><a:chOff x="0" y="6356350"/><a:chExt cx="9144000" cy="365125"/></a:xfrm></p:grpSpPr>`, id, id-1)
 		}
-		sb.WriteString(spClose)
+		if s.Footer != "" {
+			id := ids.next()
+			spOpen(&sb, id, fmt.Sprintf("Footer Placeholder %d", id-1), `<p:ph type="ftr" sz="quarter" idx="11"/>`, false)
+			paraXML(&sb, Para{Text: s.Footer})
+			sb.WriteString(spClose)
+		}
+		if s.Date != "" {
+			id := ids.next()
+			spOpen(&sb, id, fmt.Sprintf("Date Placeholder %d", id-1), `<p:ph type="dt" sz="half" idx="10"/>`, false)
+			fieldPara(&sb, "datetime1", s.Date)
+			sb.WriteString(spClose)
+		}
+		if s.SlideNum != "" {
+			id := ids.next()
+			spOpen(&sb, id, fmt.Sprintf("Slide Number Placeholder %d", id-1), `<p:ph type="sldNum" sz="quarter" idx="12"/>`, false)
+			fieldPara(&sb, "slidenum", s.SlideNum)
+			sb.WriteString(spClose)
+		}
+		if grouped {
+			sb.WriteString(`</p:grpSp>`)
+		}
 	}
-	grouped := s.GroupFooters && (s.Footer != "" || s.Date != "" || s.SlideNum != "")
-	if grouped {
-		id := ids.next()
-		fmt.Fprintf(&sb, `<p:grpSp><p:nvGrpSpPr><p:cNvPr id="%d" name="Group %d"/><p:cNvGrpSpPr/><p:nvPr/></p:nvGrpSpPr><p:grpSpPr><a:xfrm><a:off x="0" y="6356350"/><a:ext cx="9144000" cy="365125"/><a:chOff x="0" y="6356350"/><a:chExt cx="9144000" cy="365125"/></a:xfrm></p:grpSpPr>`, id, id-1)
-	}
-	if s.Footer != "" {
-		id := ids.next()
-		spOpen(&sb, id, fmt.Sprintf("Footer Placeholder %d", id-1), `<p:ph type="ftr" sz="quarter" idx="11"/>`, false)
-		paraXML(&sb, Para{Text: s.Footer})
-		sb.WriteString(spClose)
-	}
-	if s.Date != "" {
-		id := ids.next()
-		spOpen(&sb, id, fmt.Sprintf("Date Placeholder %d", id-1), `<p:ph type="dt" sz="half" idx="10"/>`, false)
-		fieldPara(&sb, "datetime1", s.Date)
-		sb.WriteString(spClose)
-	}
-	if s.SlideNum != "" {
-		id := ids.next()
-		spOpen(&sb, id, fmt.Sprintf("Slide Number Placeholder %d", id-1), `<p:ph type="sldNum" sz="quarter" idx="12"/>`, false)
-		fieldPara(&sb, "slidenum", s.SlideNum)
-		sb.WriteString(spClose)
-	}
-	if grouped {
-		sb.WriteString(`</p:grpSp>`)
+	if s.FootersFirst {
+		writeFooters()
+		writeBody()
+	} else {
+		writeBody()
+		writeFooters()
 	}
 	for _, t := range s.Tables {
 		id := ids.next()
